@@ -10,7 +10,7 @@ from typing import Union, List, Optional, Dict
 
 # Local imports
 from ...connect import Connectable, connected_ports
-from ...instance import _get_connref
+from ...instance import _get_connref, InstanceArray
 from ...instantiable import (
     io,
     Instantiable,
@@ -274,22 +274,45 @@ class ResolvePortRefs(ElabPass):
             msg = f"Invalid port connection to `{portref}` in Module `{module}`"
             self.fail(msg)
 
+        # The name of the new signal comes either from the NoConn or the instance/port names
+        basename = noconn.name or f"{portref.inst.name}_{portref.portname}"
+
+        if isinstance(portref.inst, InstanceArray) and isinstance(port, BundleInstance):
+            # Each element of an array gets unconnected nets of its own, rather than sharing (broadcasting) them.
+            anon = self.array_noconn_bundle(module, port, portref.inst.n, [basename])
+            portref.inst.connect(portref.portname, anon)
+            return
+
         # Copy any relevant attributes of the Port
         sig = self.copy_port(port)
 
-        # Set the signal name, either from the NoConn or the instance/port names
-        if noconn.name is not None:
-            # Named no-connects keep their name, unless it is taken by something else in the module
-            sig.name = self.flatname(segments=[noconn.name], avoid=module.namespace)
-        else:
-            sig.name = self.flatname(
-                segments=[f"{portref.inst.name}_{portref.portname}"],
-                avoid=module.namespace,
-            )
+        if isinstance(portref.inst, InstanceArray):
+            # Similarly for scalar ports: one set of unconnected bits per element.
+            sig.width = port.width * portref.inst.n
+
+        # Named no-connects keep their name, unless it is taken by something else in the module
+        sig.name = self.flatname(segments=[basename], avoid=module.namespace)
 
         # Add the new signal, and connect it to `inst`
         module.add(sig)
         portref.inst.connect(portref.portname, sig)
+
+
+    def array_noconn_bundle(
+        self, module: Module, port: BundleInstance, n: int, path: List[str]
+    ) -> AnonymousBundle:
+        """Create the unconnected nets for bundle-valued port `port` of an `n`-element array:
+        an anonymous bundle with, per signal of the port's bundle, one new signal `n` times its width."""
+        anon = AnonymousBundle()
+        for name, bsig in port.of.signals.items():
+            sig = self.copy_port(bsig)
+            sig.width = bsig.width * n
+            sig.name = self.flatname(segments=path + [name], avoid=module.namespace)
+            module.add(sig)
+            anon.add(name, sig)
+        for name, sub in port.of.bundles.items():
+            anon.add(name, self.array_noconn_bundle(module, sub, n, path + [name]))
+        return anon
 
 
 class SetList:
